@@ -211,6 +211,86 @@ mut("C16", "keep-ignored", ST,
 
 
 
+# ---- C02
+mut("C02", "stream-init-materialises", ST,
+    "        self._data = iter(dargs[0])\n",
+    "        self._data = iter(list(it.islice(dargs[0], 10 ** 4)))\n")
+mut("C02", "blocks-reads-one-ahead", MI,
+    "  if hop <= size:\n    for el in seq:\n      res.append(el)\n"
+    "      if idx == last_idx:\n        yield res",
+    "  if hop <= size:\n    seq = _ahead(seq)\n    for el in seq:\n"
+    "      res.append(el)\n      if idx == last_idx:\n        yield res")
+mut("C02", "filter-loop-prefetches-input", FI,
+    "    arguments = [iter(seq), memory, zero]",
+    "    arguments = [_ahead(iter(seq)), memory, zero]")
+mut("C02", "parallel-filter-lists-input", FI,
+    "    arg0 = thub(args[0], len(self))",
+    "    arg0 = thub(list(it.islice(args[0], 10 ** 4)), len(self))")
+mut("C02", "overlap-add-collects-blocks-first", AN,
+    "  for blk in xmap(iter, blk_sig):\n    mem[:s_h] = xmap(add, mem[hop:], "
+    "blk)\n    mem[s_h:] = blk # Remaining elements",
+    "  for blk in xmap(iter, list(__import__('itertools').islice(blk_sig, "
+    "10 ** 3))):\n"
+    "    mem[:s_h] = xmap(add, mem[hop:], blk)\n"
+    "    mem[s_h:] = blk # Remaining elements")
+mut("C02", "stft-lists-blocks", AN,
+    "      if wnd is None:\n        for blk in Stream(sig).blocks(size=size, "
+    "hop=hop):",
+    "      if wnd is None:\n        for blk in list(__import__('itertools')"
+    ".islice(Stream(sig).blocks(size=size, hop=hop).map(list), 10 ** 3)):")
+mut("C02", "resample-takes-order-plus-one", PO,
+    "  data.extend(sig.take(rint(threshold)))",
+    "  data.extend(sig.take(order + 1))")
+mut("C02", "skip-is-eager", ST,
+    "    self._data = skipper(self._data)\n    return self",
+    "    for _ in xrange(int(round(n))):\n      next(self._data, None)\n"
+    "    return self")
+mut("C02", "limit-reads-one-extra", ST,
+    "    self._data = it.islice(self._data, max(int(round(n)), 0))",
+    "    self._data = _limit_ahead(self._data, max(int(round(n)), 0))")
+mut("C02", "streamix-add-primes-event", ST,
+    "    self._not_playing.append((delta, iter(data)))",
+    "    data = iter(data)\n    first = list(it.islice(data, 1))\n"
+    "    self._not_playing.append((delta, it.chain(first, data)))")
+mut("C02", "maverage-deque-buffers-ahead", AN,
+    "    for el in sig:\n      mean_value -= data.popleft()",
+    "    for el in _ahead(iter(sig)):\n      mean_value -= data.popleft()")
+mut("C02", "zcross-reads-ahead", AN,
+    "  neg_hyst = -hysteresis\n  seq_iter = iter(seq)",
+    "  neg_hyst = -hysteresis\n  seq_iter = _ahead(iter(seq))")
+mut("C02", "tostream-materialises-head", ST,
+    "    return Stream(func(*args, **kwargs))\n",
+    "    gen = iter(func(*args, **kwargs))\n"
+    "    head = list(it.islice(gen, 1))\n"
+    "    return Stream(it.chain(head, gen))\n")
+mut("C02", "copy-pre-reads", ST,
+    "    a, b = it.tee(self._data) # 2 generators, not thread-safe\n"
+    "    self._data = a",
+    "    a, b = it.tee(self._data) # 2 generators, not thread-safe\n"
+    "    c = a.__copy__()\n    next(c, None)\n    self._data = a")
+mut("C02", "record-reads-chunk-at-open", IO,
+    "    self._recordings.append(input_stream)\n    return input_stream",
+    "    self._recordings.append(input_stream)\n    input_stream.peek(1)\n"
+    "    return input_stream")
+mut("C02", "thub-drains-a-block", ST,
+    "    self._iters = list(it.tee(iter_self, n))",
+    "    self._iters = list(it.tee(_ahead(iter_self, 4), n))")
+mut("C02", "lowpass-stream-cutoff-eager", FI,
+    "def lowpass(cutoff):\n  cutoff = thub(cutoff, 1)\n  x = 2 - "
+    "cos(cutoff)",
+    "def lowpass(cutoff):\n  if isinstance(cutoff, Iterable):\n"
+    "    cutoff = Stream(list(it.islice(cutoff, 256)))\n"
+    "  cutoff = thub(cutoff, 1)\n  x = 2 - cos(cutoff)")
+mut("C02", "zero-pad-buffers-input", MI,
+    "  for item in seq:\n    yield item\n  for unused in xrange(right):",
+    "  for item in _ahead(iter(seq), 2):\n    yield item\n"
+    "  for unused in xrange(right):")
+mut("C02", "chunks-struct-two-blocks", IO,
+    "  for block in blocks(seq, size, padval=padval):\n    yield "
+    "s.pack(*block)",
+    "  for block in _ahead(map(tuple, blocks(seq, size, padval=padval))):\n"
+    "    yield s.pack(*block)")
+
 # ---- C06
 mut("C06", "thub-too-few-copies", PO,
     "    thubbed_self = [(k, thub(v, len(other._data)))",
@@ -262,6 +342,29 @@ mut("C06", "mul-keeps-only-first-den", FI,
 # where "nearest" allows both): "(count > self._not_playing[0][0])"
 
 
+AHEAD_HELPER = """
+
+def _ahead(seq, k=1):
+  # mutant helper: keeps k items of read-ahead
+  import collections
+  seq = iter(seq)
+  buf = collections.deque()
+  for el in seq:
+    buf.append(el)
+    if len(buf) > k:
+      yield buf.popleft()
+  while buf:
+    yield buf.popleft()
+
+
+def _limit_ahead(data, n):
+  for idx, el in enumerate(data):
+    if idx >= n:
+      return
+    yield el
+"""
+
+
 def run_one(prop, name, path, old, new, tier, runs=None):
   tmp = tempfile.mkdtemp(prefix="verif-mut-")
   try:
@@ -273,7 +376,10 @@ def run_one(prop, name, path, old, new, tier, runs=None):
     if src.count(old) != 1:
       return {"mutant": name, "status": "NOT-APPLICABLE (%d matches)"
               % src.count(old)}
-    open(fp, "w").write(src.replace(old, new))
+    src = src.replace(old, new)
+    if "_ahead(" in new or "_limit_ahead(" in new:
+      src += AHEAD_HELPER
+    open(fp, "w").write(src)
     env = dict(os.environ)
     env["VERIF_REPO"] = dst
     env["VERIF_REPLAY_DIR"] = os.path.join(tmp, "replays")
